@@ -435,7 +435,7 @@ package ggql
 //@ func (*Root).replaceListRefs
 //@   props C13 C03
 //@   check panic {C03}
-//@   requires root != nil && list != nil && root.types != nil
+//@   requires root != nil && list != nil
 //@   results err
 //@   ensures[undefined-refused] old(undefT(root, box(list))) ==> err != nil
 //@   use undefTUnfoldAtEntry(root, box(list))
@@ -447,7 +447,7 @@ package ggql
 //@ func (*Root).replaceNonNullRefs
 //@   props C13 C03
 //@   check panic {C03}
-//@   requires root != nil && nn != nil && root.types != nil
+//@   requires root != nil && nn != nil
 //@   results err
 //@   ensures[undefined-refused] old(undefT(root, box(nn))) ==> err != nil
 //@   use undefTUnfoldAtEntry(root, box(nn))
